@@ -23,10 +23,13 @@ GenInit == Init /\ sched = <<>> /\ done = FALSE
 (* of different callers alternate (create / destroy landing between the Get and the Create / Update of a helper)   *)
 Alt == "GEN_ALT" \in DOMAIN IOEnv /\ IOEnv.GEN_ALT = "1"
 Others == IF sched = <<>> THEN Actors ELSE Actors \ {sched[Len(sched)].a}
+(* GEN_LEAD=n: actor 1 takes its first n calls alone (a history the race then builds on), in half of the behaviours *)
+Lead == IF "GEN_LEAD" \in DOMAIN IOEnv THEN atoi(IOEnv.GEN_LEAD) ELSE 0
 GenNext == IF Quiet \/ Len(sched) >= GenDepth THEN Finish
            ELSE /\ ~done
                 /\ \E coin \in {RandomElement(1..4)} :
-                     IF Alt /\ coin > 1 /\ (\E b \in Others : ENABLED Step(b))
+                     IF Lead > 0 /\ pi[1] <= Lead /\ ENABLED Step(1) /\ (sched = <<>> \/ sched[1].a = 1) THEN GStep(1)
+                     ELSE IF Alt /\ coin > 1 /\ (\E b \in Others : ENABLED Step(b))
                      THEN \E b \in Others : GStep(b)
                      ELSE \E a \in Actors : GStep(a) \/ GDeliver(a)
 GenSpec == GenInit /\ [][GenNext]_gvars
